@@ -1,8 +1,16 @@
-"""Native replays for C23."""
+"""Native replays for C23 / C24 (model cache) on the real code."""
+import os
 import pathlib
-from typing import Any, Dict, Optional
+import pickle
+import tempfile
+from typing import Any, Dict, List, Optional
 
-from aas_core_codegen import main
+from aas_core_codegen import main, run
+
+REPO = pathlib.Path(os.environ.get("VERIF_REPO", "/repo"))
+if not (REPO / "dev").exists():
+    REPO = pathlib.Path("/repo")
+MODEL = REPO / "dev" / "test_data" / "common_meta_models" / "enum.py"
 
 
 def replay_parameters(obligation: str = "", model: Optional[Dict[str, str]] = None, desc: str = "", **_: Any) -> Dict[str, Any]:
@@ -14,4 +22,68 @@ def replay_parameters(obligation: str = "", model: Optional[Dict[str, str]] = No
         if (p.model_path, p.snippets_dir, p.output_dir, p.target) != (
                 pathlib.Path("m.py"), pathlib.Path("s"), pathlib.Path("o"), main.Target.PYTHON):
             return {"confirmed": True, "input": {"cache_model": flag}, "observed": "another field differs from its argument"}
+    return {"confirmed": False}
+
+
+def _listing(d: pathlib.Path) -> List[str]:
+    return sorted(str(p.relative_to(d)) for p in d.glob("**/*") if p.is_file())
+
+
+def replay_load_model(obligation: str = "", model: Optional[Dict[str, str]] = None, desc: str = "", **_: Any) -> Dict[str, Any]:
+    """Run the real load_model with a private temporary directory and look at what it left there:
+    (1) without the flag nothing may appear; (2) with the flag, a failing pickle.dump (simulated crash in
+    the middle of the write) must leave no ``model-*.pickle`` entry; (3) a completed run leaves one
+    complete entry that a second run reads back."""
+    old_tmp = tempfile.tempdir
+    try:
+        with tempfile.TemporaryDirectory(dir=old_tmp) as d:
+            tempfile.tempdir = d
+            res, err = run.load_model(MODEL, cache_model=False)
+            if err is not None:
+                return {"confirmed": False, "note": f"model not accepted: {err[:200]}"}
+            if _listing(pathlib.Path(d)):
+                return {"confirmed": True, "input": {"cache_model": False, "model": str(MODEL)},
+                        "observed": f"files appeared in the cache directory without --cache_model: {_listing(pathlib.Path(d))}"}
+        tempfile.tempdir = old_tmp
+        with tempfile.TemporaryDirectory(dir=old_tmp) as d:
+            tempfile.tempdir = d
+            real_dump = pickle.dump
+
+            def failing_dump(obj: Any, fid: Any, *a: Any, **k: Any) -> None:
+                fid.write(b"\x80\x04partial")
+                fid.flush()
+                raise OSError("simulated crash in the middle of the cache write")
+
+            pickle.dump = failing_dump  # type: ignore
+            try:
+                try:
+                    run.load_model(MODEL, cache_model=True)
+                except OSError:
+                    pass
+            finally:
+                pickle.dump = real_dump  # type: ignore
+            entries = [f for f in _listing(pathlib.Path(d)) if f.endswith(".pickle")]
+            if entries:
+                return {"confirmed": True, "input": {"cache_model": True, "fault": "pickle.dump fails half way"},
+                        "observed": f"a partially written shared cache entry exists: {entries}"}
+            res2, err2 = run.load_model(MODEL, cache_model=True)
+            entries = [f for f in _listing(pathlib.Path(d)) if f.endswith(".pickle")]
+            if len(entries) != 1:
+                return {"confirmed": True, "input": {"cache_model": True}, "observed": f"cache entries after a completed run: {entries}"}
+            with open(os.path.join(d, entries[0]), "rb") as fid:
+                cached = pickle.load(fid)
+            if not isinstance(cached, run._Cached):
+                return {"confirmed": True, "input": {"cache_model": True}, "observed": "the cache entry is not a _Cached"}
+            res3, err3 = run.load_model(MODEL, cache_model=True)
+            if (err3 is None) != (err2 is None):
+                return {"confirmed": True, "input": {"cache_model": True}, "observed": "warm run differs from cold run"}
+            # (4) a run without the flag must not read an existing entry: plant a marked one
+            with open(os.path.join(d, entries[0]), "wb") as fid:
+                pickle.dump(run._Cached(symbol_table="SENTINEL", atok=None), fid)  # type: ignore
+            res4, err4 = run.load_model(MODEL, cache_model=False)
+            if res4 is not None and res4[0] == "SENTINEL":
+                return {"confirmed": True, "input": {"cache_model": False, "history": "an entry for this model text exists"},
+                        "observed": "a run without --cache_model returned the content of the cache entry"}
+    finally:
+        tempfile.tempdir = old_tmp
     return {"confirmed": False}
